@@ -13,7 +13,7 @@ import (
 
 func init() {
 	register(&Prop{
-		ID: "C16",
+		ID:          "C16",
 		Explanation: "Decides non-interference by guard dominance and closed reader sets: every read of a request header in production code is enumerated; a constant key naming a forwarding header (X-Forwarded-Host/Proto/Uri/For, X-Real-IP, X-ProxyUser-IP, X-Envoy-External-Address, CF-Connecting-IP, Forwarded) occurs only in GetRequestProto/GetRequestHost/GetRequestURI, and non-constant keys only at the two reviewed sites (the configured real-client-IP parser, the request-id header); wholesale iterations over a header map stay within the reviewed list; in the three accessors the header's value is returned only on paths where IsProxied(req) was true and is otherwise used only in the emptiness test behind that guard; IsProxied returns RequestScope.ReverseProxy or false; that field is written once, from NewScope's parameter, whose only call passes opts.ReverseProxy; the real-client-IP parser is installed only under o.ReverseProxy==true, stored in the proxy only by the constructor from the options, consulted only through ip.GetClientIP / GetClientString, and reads only its one configured header.",
 		NotDecided:  "pairwise equality of whole responses (relational over values): the rule proves the absence of a dependence path, which is the necessary condition.",
 		Run:         runC16,
@@ -109,7 +109,7 @@ func runC16(c *Ctx) {
 		"pkg/middleware.genRequestID":                          "request-id header chosen by configuration; feeds only logging and error pages",
 	}
 	rangeOK := map[string]string{
-		"pkg/middleware.flattenHeaders": "joins multi-valued headers after strip+inject; feeds no decision",
+		"pkg/middleware.flattenHeaders":  "joins multi-valued headers after strip+inject; feeds no decision",
 		"pkg/upstream.(*multiTransport)": "n/a",
 	}
 	for _, hr := range c.headerReads() {
